@@ -563,6 +563,10 @@ func (fv *FV) box(st *State, v Term, from types.Type, to *Sort, pos token.Pos) T
 		r := fv.fresh("err", SErr)
 		st.assume(tNot(tEq(r, T("err_nil", SErr))))
 		st.assume(T(sx("errIs", r.S, fv.ss.StrConst("errclass:"+typeBaseName(from))), SBool))
+		if q := typeQualName(from); q != "" {
+			// also classified by its package-qualified name (nothing says it is of another package's type of that name)
+			st.assume(T(sx("errIs", r.S, fv.ss.StrConst("errclass:"+q)), SBool))
+		}
 		return r
 	case KOpaque:
 		if _, ptr := fv.ss.RefTarget(to); ptr != nil && ptr == v.Sort {
@@ -597,6 +601,18 @@ func (fv *FV) box(st *State, v Term, from types.Type, to *Sort, pos token.Pos) T
 	}
 	fv.abort(pos, "cannot convert sort %s to %s", v.Sort.Name, to.Name)
 	return v
+}
+
+// typeQualName: "<package name>.<type name>" of a named (or pointer to named) type.
+func typeQualName(t types.Type) string {
+	t = types.Unalias(t)
+	if p, ok := t.(*types.Pointer); ok {
+		t = types.Unalias(p.Elem())
+	}
+	if n, ok := t.(*types.Named); ok && n.Obj().Pkg() != nil {
+		return n.Obj().Pkg().Name() + "." + n.Obj().Name()
+	}
+	return ""
 }
 
 func typeBaseName(t types.Type) string {
